@@ -989,6 +989,7 @@ func main() {
 	runLargeScales()
 	runHugeSymbols()
 	runHintedQR()
+	runFarCanvases()
 	runTexturedQR()
 	runHintedDM()
 	runHistory()
